@@ -191,6 +191,37 @@ def rand_spec(rng, opts=None):
                 witness=bool(opts.get("witness")))
 
 
+def systematic_specs():
+    """Exhaustive small family: two transactions reaching one exclusive leaf E directly, through a nonexclusive
+    method N, through an exclusive method X or through an alias, with T1's two call sites in If/Else alternatives."""
+    def meth(name, nonex, body, iw=0, ow=0):
+        return dict(name=name, nonexcl=nonex, iw=iw, ow=ow, ready_free=True, validate=None, combiner=None, body=body,
+                    single_caller=False, nested_in=None)
+
+    kinds = {"direct": ["call", 0, False, 0], "alias": ["call", 0, False, 1], "via_nonex": ["call", 1, False, 0], "via_ex": ["call", 2, False, 0],
+             "direct_en": ["call", 0, True, 0]}
+    out = []
+    names = list(kinds)
+    for ka in names:
+        for kb in names:
+            for kc in ("direct", "via_nonex", "via_ex"):
+                for t2_cond in (False, True):
+                    if t2_cond and (ka, kb) != ("via_nonex", "direct"):
+                        continue
+                    methods = [meth("E", False, [], 2, 2), meth("N", True, [["call", 0, False, 0]]), meth("X", False, [["call", 0, False, 0]])]
+                    t1 = dict(name="T0", body=[["if", [[list(kinds[ka])], [list(kinds[kb])]], True]], nested=[])
+                    t2b = [list(kinds[kc])]
+                    t2 = dict(name="T1", body=[["if", [t2b, []], False]] if t2_cond else t2b, nested=[])
+                    out.append(dict(methods=methods, transactions=[t1, t2], relations=[], groups=[["plain", [0]], ["plain", [1]]],
+                                    group_module=[0, 0], mgroups=[], witness=False))
+    for ka in names:
+        for kc in ("direct", "via_nonex", "via_ex"):
+            methods = [meth("E", False, [], 2, 2), meth("N", True, [["call", 0, False, 0]]), meth("X", False, [["call", 0, False, 0]])]
+            out.append(dict(methods=methods, transactions=[dict(name="T0", body=[list(kinds[ka])], nested=[]), dict(name="T1", body=[list(kinds[kc])], nested=[])],
+                            relations=[], groups=[["plain", [0]], ["plain", [1]]], group_module=[0, 0], mgroups=[], witness=False))
+    return out
+
+
 def _def_position(groups, ti):
     pos = 0
     for g in groups:
